@@ -549,6 +549,16 @@ def main(check: Check, argv):
         elif still is False:
             log(f"note: known finding {key} no longer reproduces on this tree")
 
+    # shrink the first new violation through the stream's own neighbourhood (greedy, bounded)
+    if new_viol:
+        v0 = new_viol[0]
+        for st in check.streams:
+            if st.name == v0.stream:
+                try:
+                    new_viol[0] = shrink(st, v0, known)
+                except Exception:  # a shrinker problem must never hide the violation
+                    pass
+
     # 7 verdict + evidence
     status = 0
     replay_path = None
@@ -627,6 +637,34 @@ def main(check: Check, argv):
         json.dump(ev, f, indent=1, default=str)
     log(f"done in {ev['wall_s']}s status={status}")
     return status
+
+
+def shrink(st, v, known, budget=400):
+    """greedy: replace the case by a strictly smaller neighbour (by JSON length) that still violates
+    the oracle with the same known/unknown classification"""
+    rng = random.Random(0)
+    cur = v
+    size = len(json.dumps(cur.case))
+    tried = 0
+    improved = True
+    while improved and tried < budget:
+        improved = False
+        for c in st.mutate(cur.case, rng):
+            tried += 1
+            if tried >= budget:
+                break
+            sz = len(json.dumps(c))
+            if sz >= size:
+                continue
+            what = st.oracle(c, real_out(st, c))
+            if what is None:
+                continue
+            k = st.finding_key(c, what)
+            if (k in known) != (cur.key in known):
+                continue
+            cur, size, improved = Violation(st.name, c, what, k), sz, True
+            break
+    return cur
 
 
 def _corpus_files(prop, stream):
